@@ -526,6 +526,48 @@ CONSTEXPR_USES_MEMBERS = [
 ]
 
 
+# Free constexpr functions of namespace au (names read from the tree on every run): every name must
+# occur in the table or be listed here with the reason why a constant-expression use is not offered.
+FREE_NOT_IN_TABLE = {
+    "isnan": "wraps std::isnan: usable in constant expressions only where the compiler treats <cmath> as builtin (g++), not a library promise",
+    "copysign": "wraps std::copysign (same)",
+    "can_scale_without_overflow": "helper of the conversion policy, exercised through implicit_rep_permitted_from_source_to_target",
+    "make_quantity_unless_unitless": "helper of operator* / operator/",
+    "fits_in_unit_slot": "helper of the unit-slot overloads",
+    "is_forward_declared_unit_valid": "used by the library's own static_asserts in the unit headers",
+    "integer_quotient": "deprecated spelling kept for compatibility: use is a deprecation warning, not part of the promise",
+}
+CONSTEXPR_USES_FREE = [
+    "are_units_point_equivalent(Celsius{}, Kelvins{})", "as_chrono_duration(seconds(std::int64_t{3})).count()", "as_raw_number(meters(6.0) / (meters * mag<2>())(1.0))",
+    "unit_ratio(associated_unit(meters), Meters{}) == mag<1>()", "unit_ratio(associated_unit_for_points(meters_pt), Meters{}) == mag<1>()", "unit_ratio(cbrt(cubed(Meters{})), Meters{}) == mag<1>()", "unit_ratio(sqrt(squared(Meters{})), Meters{}) == mag<1>()",
+    "common_magnitude(mag<6>(), mag<4>()) == mag<2>()", "unit_ratio(common_point_unit(Celsius{}, Kelvins{}), common_point_unit(Kelvins{}, Celsius{})) == mag<1>()",
+    "unit_ratio(common_unit(Feet{}, Inches{}), Inches{}) == mag<1>()", "cubed(meters)(2).in(cubed(meters))", "numerator(mag<6>() / mag<4>()) == mag<3>()", "denominator(mag<6>() / mag<4>()) == mag<2>()",
+    "integer_part(mag<7>() / mag<2>()) == mag<3>()", "is_rational(mag<3>() / mag<4>())", "is_dimensionless(Feet{} / Inches{})", "is_unit(Feet{})",
+    "is_unitless_unit(Feet{} / Feet{})", "unit_ratio(inverse(Hertz{}), Seconds{}) == mag<1>()", "mag<5>() == mag<5>()", "mag_label(mag<12>())[0]",
+    "make_common(feet, inches)(3).in(inches)", "make_common_point(celsius_pt, kelvins_pt)(3).in(make_common_point(celsius_pt, kelvins_pt))",
+    "make_quantity<Meters>(3).in(meters)", "make_quantity_point<Meters>(3).in(meters_pt)", "origin_displacement(Kelvins{}, Celsius{}) == origin_displacement(Kelvins{}, Celsius{})",
+    "pow<2>(meters)(3).in(squared(meters))", "unit_ratio(root<2>(squared(Meters{})), Meters{}) == mag<1>()", "symbol_for(meters) * 3 == meters(3)", "implicit_rep_permitted_from_source_to_target<int>(Feet{}, Inches{})",
+]
+
+
+def api_free_functions(ctx):
+    tu = '#include "au/au.hh"\n#include "au/math.hh"\n'
+    ms = [("f", 'functionDecl(isConstexpr(), hasParent(namespaceDecl(hasName("au"))), unless(cxxMethodDecl()))'),
+          ("ft", 'functionTemplateDecl(hasParent(namespaceDecl(hasName("au"))), has(functionDecl(isConstexpr())))')]
+    r = srclint.clang_query(ctx, tu, ms, tag="apif")
+    names = set()
+    for k in ("f", "ft"):
+        for f, l in r[k][1]:
+            if "/au/code/au/" not in f:
+                continue
+            src = open(f).read().splitlines()
+            txt = " ".join(src[l - 1:l + 3])
+            m = re.search(r"constexpr\s+[^;{]*?\b(operator\s*[^\s(]+|\w+)\s*\(", txt)
+            if m and not m.group(1).startswith("operator"):
+                names.add(m.group(1))
+    return sorted(names)
+
+
 def api_members(ctx):
     """Public constexpr member functions of Quantity, QuantityPoint, Constant and Zero (primary
     templates), read from the tree: [(file basename, member name)]."""
@@ -549,7 +591,12 @@ def constexpr_parity(ctx):
     inside a constant expression changed between the standards; the library promises C++14.)"""
     prelude = (witness.DEFAULT_PRELUDE + "#include <chrono>\n#include <cstdint>\n#include \"au/math.hh\"\n#include \"au/units/feet.hh\"\n#include \"au/units/inches.hh\"\n#include \"au/units/yards.hh\"\n"
                "#include \"au/units/meters.hh\"\n#include \"au/units/seconds.hh\"\n#include \"au/units/hertz.hh\"\n#include \"au/units/celsius.hh\"\n#include \"au/units/kelvins.hh\"\nusing namespace au;\n")
-    uses = CONSTEXPR_USES + CONSTEXPR_USES_MEMBERS
+    uses = CONSTEXPR_USES + CONSTEXPR_USES_MEMBERS + CONSTEXPR_USES_FREE
+    free = api_free_functions(ctx)
+    ctx.require(len(free) >= 50, "only %d constexpr free functions found in namespace au" % len(free))
+    tbl = "\n".join(uses)
+    missing = [n for n in free if n not in FREE_NOT_IN_TABLE and not re.search(r"\b%s\s*[(<]" % re.escape(n), tbl)]
+    ctx.require(not missing, "constexpr parity: constexpr free functions of namespace au without an entry in the table: %s" % missing)
     members = api_members(ctx)
     ctx.require(len(members) >= 25, "only %d public constexpr members found in the main class templates" % len(members))
     table = "\n".join(uses)
@@ -572,8 +619,8 @@ def constexpr_parity(ctx):
     # an expression that no configuration accepts is a slip in this table, not in the library
     dead = [it.meta["desc"] for it in items if all(v.rejected for v in results[it.key].values())]
     ctx.require(not dead, "constexpr parity: %d expressions are rejected by every configuration, e.g. %s" % (len(dead), dead[:2]))
-    ctx.require(nacc >= 60, "constexpr parity: only %d expressions accepted" % nacc)
-    return dict(expressions=len(items), api_members_covered=len(members), accepted_everywhere=nacc, rejected_everywhere=dead, configs=len(cxx.ALL_CONFIGS))
+    ctx.require(nacc >= 100, "constexpr parity: only %d expressions accepted" % nacc)
+    return dict(expressions=len(items), api_members_covered=len(members), api_free_functions_covered=len(free) - len([n for n in free if n in FREE_NOT_IN_TABLE]), api_free_functions_excused=sorted(n for n in free if n in FREE_NOT_IN_TABLE), accepted_everywhere=nacc, rejected_everywhere=dead, configs=len(cxx.ALL_CONFIGS))
 
 
 def body(ctx):
